@@ -853,6 +853,27 @@ impl Gen {
                 let a = self.arg(a, m, rng);
                 Op::Macro { name: name.to_string(), a, b, mode, d }
             },
+            "path_fn" => {
+                let fns = [
+                    "trim_prefix", "trim_suffix", "trim_ext", "trim_first", "trim_last", "trim_protocol", "mash", "relative", "clean", "expand", "base", "dir", "name",
+                    "ext", "first", "last", "concat", "has", "parse_paths", "str_ext",
+                ];
+                let pick = |me: &mut Gen, rng: &mut Rng| -> String {
+                    match rng.below(4) {
+                        0 => rng.pick(HOSTILE).to_string(),
+                        1 => me.random_path(rng),
+                        2 => {
+                            // random text over an adversarial alphabet
+                            let alpha = ['/', '.', '~', '$', '{', '}', ':', 'a', 'é', '日', '😀', 'İ', ' ', '\\'];
+                            (0..rng.below(9)).map(|_| *rng.pick(&alpha)).collect()
+                        },
+                        _ => format!("{}{}", rng.pick(HOSTILE), me.name(rng)),
+                    }
+                };
+                let a = pick(self, rng);
+                let b = if rng.chance(1, 3) { a.chars().take(rng.below(4)).collect() } else { pick(self, rng) };
+                Op::PathFn { f: rng.pick(&fns).to_string(), a, b }
+            },
             "open_read" => {
                 let h = self.free_slot(m, rng, false, None);
                 let p = self.p_target(m, rng, Some(FILEISH));
